@@ -514,8 +514,11 @@ func (c *Ctx) checkLivenessGlue() {
 		cc, _, ok := callResult(v)
 		return ok && calleeName(cc) == "time.Since" && flows(cc.Call.Args[0], func(w ssa.Value) bool { return isFieldLoadOf(w, lrF) })
 	}
-	isTO := func(v ssa.Value) bool { return v == ssa.Value(stale.Params[1]) }
-	expired := append(cmpEdges(stale, ">", isSince, isTO), cmpEdges(stale, ">=", isSince, isTO)...)
+	isTO := func(v ssa.Value) bool {
+		return sameValue(v, func(w ssa.Value) bool { return w == ssa.Value(stale.Params[1]) })
+	}
+	// tested inline or in a boolean helper/literal of the loop
+	expired := predEdgesS(stale, append(sCmp(">", isSince, isTO), sCmp(">=", isSince, isTO)...), 2)
 	okClose := false
 	for _, ci := range callsTo(stale, "(*client/lib.WebRTCPeer).Close") {
 		if len(expired) > 0 && reachableWithout(stale, ci, expired) == nil {
